@@ -157,10 +157,22 @@ func ApplyOps(w RowWriter, rows []parquet.Row, ops []gen.Op) error {
 
 // WriteFile writes rows through parquet.Writer.WriteRows following the history.
 func WriteFile(root *ref.Node, cols []ref.Column, rows []ref.V, o gen.WriterOpts, ops []gen.Op) ([]byte, error) {
+	return WriteFileWith(root, cols, rows, o, ops)
+}
+
+// FooterKeyOnly is a key retriever holding one key used for the footer and every column.
+type FooterKeyOnly []byte
+
+func (k FooterKeyOnly) FooterKey([]byte) ([]byte, error)           { return k, nil }
+func (k FooterKeyOnly) ColumnKey([]string, []byte) ([]byte, error) { return k, nil }
+
+// WriteFileWith is WriteFile with additional writer options (e.g. encryption).
+func WriteFileWith(root *ref.Node, cols []ref.Column, rows []ref.V, o gen.WriterOpts, ops []gen.Op, extra ...parquet.WriterOption) ([]byte, error) {
 	tmp, cleanup := TempDir(o)
 	defer cleanup()
 	schema := BuildSchema(root)
 	opts := append([]parquet.WriterOption{schema}, Options(o, cols, tmp)...)
+	opts = append(opts, extra...)
 	if _, err := parquet.NewWriterConfig(opts...); err != nil {
 		return nil, &ConfigError{err}
 	}
